@@ -281,6 +281,51 @@ def simple_streams(name, nq, nt, classify):
     return streams
 
 
+def audit_shared_state():
+    """Source audit tying the model's "the tokenizer is never written while workers exist, and there
+    is no other shared mutable state" to the current tree: no interior mutability / globals / unsafe
+    Send-Sync impls in vibrato/src outside tests."""
+    import os
+    import re
+    bad = []
+    pat = re.compile(r"static\s+mut\b|\bCell<|\bRefCell<|\bUnsafeCell<|\bAtomic[A-Z]\w*|thread_local!|lazy_static!|OnceCell|OnceLock|"
+                     r"unsafe\s+impl\s+(Send|Sync)|\bMutex<|\bRwLock<")
+    root = "/repo/vibrato/src"
+    for dp, dn, fn in os.walk(root):
+        for f in fn:
+            if not f.endswith(".rs") or f in ("verif.rs",):
+                continue
+            p = os.path.join(dp, f)
+            if "/tests" in p or f == "test_utils.rs":
+                continue
+            text = open(p, encoding="utf-8").read()
+            text = text.split("#[cfg(test)]")[0]
+            for ln, line in enumerate(text.splitlines(), 1):
+                if line.strip().startswith("//"):
+                    continue
+                if pat.search(line):
+                    bad.append(f"{p}:{ln}: {line.strip()}")
+    if bad:
+        return [("proof", "shared-state audit: the model assumes no shared mutable state, but the source now contains:\n" + "\n".join(bad),
+                 "\n".join(bad))]
+    return []
+
+
+def threads_classify(line, impl, mobs, extra):
+    info = {"tags": ["threads=" + impl], "nontrivial": True}
+    if impl != "same-as-sequential":
+        info["prop_fail"] = "threads-differ"
+        info["why"] = "workers running concurrently over one tokenizer produced results different from sequential fresh workers"
+    return info
+
+
+def c04_streams(tier, seed):
+    c = tok_classifier("C04", has_tokens)
+    if tier == "quick":
+        return [(["tok", "c04", str(seed), "300"], c), (["threads", str(seed), "5"], threads_classify)]
+    return [(["tok", "c04", str(seed), "10000"], c), (["threads", str(seed), "300"], threads_classify)]
+
+
 LATTICE_TB = [
     "crawdad trie modelled as: stored keys that are prefixes of the input, increasing length, ids ascending",
     "costs modelled in Int with an explicit no-overflow bound (EnvOK.bound); harness built with overflow checks",
@@ -440,7 +485,8 @@ PROPS = {
         "theorems": ["Vibrato.reset_then_tokenize_fresh", "Vibrato.history_independent", "Vibrato.tokenize_idempotent",
                      "Vibrato.tokenize_twice_doubles", "Vibrato.interleave_independent",
                      "Vibrato.buildLattice_buffer_indep"],
-        "streams": tok_streams("c04", 300, 10000, tok_classifier("C04", has_tokens)),
+        "streams": c04_streams,
+        "pre_checks": audit_shared_state,
         "rule": "random worker histories (reset incl. empty and shorter-after-longer sentences, repeated tokenize, "
                 "reads before tokenize, lattice dumps, counter ops) on one worker; non-trivial = some read returned tokens",
         "trusted_base": LATTICE_TB + ["thread scheduling, allocator and AVX2 gathers are outside the model (partial for schedules)"],
